@@ -117,7 +117,7 @@ class _RetryState:
 
         if self.on_metric is not None:
             try:
-                self.on_metric(event, attempt, sleep_s, tags)
+                self.on_metric(event, attempt, sleep_s, dict(tags))
             except Exception:
                 pass
 
